@@ -150,7 +150,8 @@ def droppable(yaml_dict):
 # ------------------------------------------------------------------ body generation
 WORDS = ["x", "y", "rv", "tmp", "count", "=", "==", "+", "-", "*", "/", "(", ")", "{", "}", "[i]", ";", ",",
          "call", "foo(1, 2)", "return", "if", "end if", "&", "&&", "->", "::", "%", "'a b'", '"s t"',
-         "0", "42", "1.5e-3", "// c", "! f", "/* k */", "\\", "{0}", "{name}", "%s", "$", "~", "|", "<", ">"]
+         "0", "42", "1.5e-3", "// c", "! f", "/* k */", "\\", "{0}", "{name}", "%s", "$", "~", "|", "<", ">",
+         "caf\u00e9", "\u00b5m", "// \u65e5\u672c", "'\u00df'"]
 
 
 def gen_body(rng, uid, allow_tplus=True, from_yaml=False):
@@ -712,6 +713,19 @@ def execute_history_c12(spec, camp):
                         vs.append({"inv": "I12.2-default", "kind": "c:default:declaration-splicer-leaked-into-variant:plain",
                                    "path": uniq[n][0], "detail": {"block": n, "pattern": name_pattern(n), "cycle": cycle}})
                     found -= set(leaked)
+                node = {"declarations": ydict["declarations"]}
+                try:
+                    for i_ in path:
+                        node = node["declarations"][i_]
+                    ndefault = node.get("decl", "").split("(", 1)[1].count("=") if "(" in node.get("decl", "") else 0
+                except (KeyError, IndexError, TypeError):
+                    ndefault = 0
+                if found and ndefault and lang in ("c", "f") and len(found) < ndefault + 1 and not tainted_lang.get(lang):
+                    # a function with n default arguments is wrapped n+1 times in C and Fortran; the
+                    # declaration's code belongs into every one of them
+                    vs.append({"inv": "I12.3-declaration-splicer-lost", "kind": "%s:default-argument-variants" % lang,
+                               "path": "", "detail": {"decl": node.get("decl"), "blocks_with_the_code": sorted(found),
+                                                      "expected_at_least": ndefault + 1}})
                 if not found:
                     if toks and toks[0] in alltext.get(lang, ""):
                         continue  # landed in an ambiguous block name: not asserted
